@@ -11,7 +11,7 @@ from sim.core import Outcome, dg, exc_site
 
 META = {
     "level": "exploration",
-    "budget": {"quick": {"seconds": 75, "runs": 350},
+    "budget": {"quick": {"seconds": 75, "runs": 1000},
                "thorough": {"seconds": 900, "runs": 10**9}},
     "rule": ("one evaluation = one tape-generated nested structure (list/tuple/set/dict/OrderedDict/dataclass/"
              "namedtuple/iterator, collections as dict keys, plain leaves) holding delayed/array/bag collections "
